@@ -11,8 +11,8 @@ HERE = os.path.dirname(os.path.abspath(__file__))
 
 
 class Project:
-    def __init__(self, targets, config=None):
-        """targets: list of dict(name, inputs, outputs, protect?, spec?)"""
+    def __init__(self, targets, config=None, source=None):
+        """targets: list of dict(name, inputs, outputs, protect?, spec?); source: literal workflow.py text instead"""
         self.dir = tempfile.mkdtemp(prefix="gwfverif-")
         self.targets = targets
         self.state = os.path.join(self.dir, "fake_slurm.json")
@@ -21,6 +21,8 @@ class Project:
             lines.append("gwf.target(%r, inputs=%r, outputs=%r, protect=%r) << %r" % (
                 t["name"], t.get("inputs", []), t.get("outputs", []), t.get("protect", []),
                 t.get("spec", "echo " + t["name"])))
+        if source is not None:
+            lines = [source]
         with open(os.path.join(self.dir, "workflow.py"), "w") as f:
             f.write("\n".join(lines) + "\n")
         if config:
@@ -39,7 +41,7 @@ class Project:
         if mtime is not None:
             os.utime(p, (mtime, mtime))
 
-    def gwf(self, *args, fail_submit="", input=None):
+    def gwf(self, *args, fail_submit="", input=None, cwd=None, file_arg="ABS", global_opts=("-b", "slurm")):
         """run `gwf -f <project>/workflow.py -b slurm <args>` in-process; returns (exit_code, output)"""
         from click.testing import CliRunner
         from gwf.cli import main
@@ -51,13 +53,13 @@ class Project:
             env["FAKE_SLURM_FAIL"] = fail_submit
         old = {k: os.environ.get(k) for k in env}
         os.environ.update(env)
-        cwd = os.getcwd()
-        os.chdir(self.dir)
+        saved_cwd = os.getcwd()
+        os.chdir(cwd or self.dir)
+        fopt = [] if file_arg is None else ["-f", self.path("workflow.py") if file_arg == "ABS" else file_arg]
         try:
-            r = CliRunner().invoke(main, ["-f", self.path("workflow.py"), "-b", "slurm"] + list(args),
-                                   input=input, catch_exceptions=True)
+            r = CliRunner().invoke(main, fopt + list(global_opts) + list(args), input=input, catch_exceptions=True)
         finally:
-            os.chdir(cwd)
+            os.chdir(saved_cwd)
             for k, v in old.items():
                 if v is None:
                     os.environ.pop(k, None)
